@@ -167,11 +167,31 @@ func VerifC03Instance() {
 	// a local write by the non-writer on its own replica is refused when the
 	// write list travels with the database (manifest-backed controller)
 	if kindPriv == 0 {
-		rs, err := m.o.Open(ctx, privAddr, &CreateDBOptions{IO: m.env.IO})
+		// the opener may pass access-controller parameters of its own: an explicit
+		// list naming itself, or a value it used before to create a database of its own
+		// (the controller's defaulting wrote the creator's id into it); the write list
+		// of an OPENED database is the one recorded at its creation all the same
+		oopts := &CreateDBOptions{IO: m.env.IO}
+		switch vstub.NdChoice("opener-parameters", 3) {
+		case 1:
+			oopts.AccessController = acParams([]string{intruder})
+			vstub.Cover("opener-passes-own-list")
+		case 2:
+			reused := acParams(nil)
+			if _, err := m.o.Create(ctx, "own", "eventlog", &CreateDBOptions{AccessController: reused, IO: m.env.IO}); err != nil {
+				vstub.Fail("C03 the non-writer cannot create a database of its own")
+				return
+			}
+			oopts.AccessController = reused
+			vstub.Cover("opener-reuses-parameters")
+		}
+		rs, err := m.o.Open(ctx, privAddr, oopts)
 		if err != nil {
 			vstub.Fail("C03 the non-writer cannot open the database")
 			return
 		}
+		gotW, gerr := rs.AccessController().GetAuthorizedByRole("write")
+		vstub.Assert(gerr == nil && sameList(gotW, wantPriv), "C03 an opened database enforces the write list recorded at its creation, whatever parameters the opener passes")
 		_, werr := rs.(iface.EventLogStore).Add(ctx, []byte("x"))
 		vstub.Assert(werr != nil, "C03 a local write by a non-writer fails with an error")
 		vstub.Assert(rs.OpLog().Len() == 0, "C03 a refused local write changes nothing")
